@@ -158,6 +158,27 @@ Theorem C09_compression_shared_same_meaning :
 Proof. exact compression_shared_same_meaning. Qed.
 Print Assumptions C09_compression_shared_same_meaning.
 
+(* Per-field writer state (g['sample_ncdim'], reset at the start of every
+   field): the variables a field gets, and the file after it, do not depend on
+   the mapping left behind by the fields written before it ... *)
+Theorem C09_per_field_state_independent :
+  forall cfs st s1 s2,
+  fst (fst (write_cfields2 true cfs st s1)) = fst (fst (write_cfields2 true cfs st s2)) /\
+  snd (write_cfields2 true cfs st s1) = snd (write_cfields2 true cfs st s2).
+Proof. exact cfields2_state_independent. Qed.
+Print Assumptions C09_per_field_state_independent.
+
+(* ... and every metadata construct compressed by gathering, of every field of
+   every list (fields whose own gathered items use one list on one group of
+   axes, g_ok: anything else is damaged in a file of its own), is written on a
+   list variable that holds its own list values and whose compress attribute
+   names its own dimensions - never on a list variable left by another field. *)
+Theorem C09_gathered_constructs_own :
+  forall cfs st s xs,
+  Forall g_ok cfs -> write_cfields2 true cfs st0 [] = (st, s, xs) -> Forall2 (gitems_own st) cfs xs.
+Proof. exact gathered_constructs_own. Qed.
+Print Assumptions C09_gathered_constructs_own.
+
 (* Open finding F09d: two fields share a coordinate variable, only one of them
    has formula terms: the other one reads them back as its own. *)
 Theorem C09_formula_terms_leak_refuted :
